@@ -135,7 +135,8 @@ def main():
     out.append("""* Coq 8.16.1 kernel and `vm_compute`; no `native_compute`, no extraction (hence no `Extract` directive), no `-type-in-type`, no
   guard/positivity/universe switch; the source scan in every check run rejects `Admitted|admit|Axiom|Parameter|Conjecture|…`.
   `coqchk -silent -o` is run on the property file in the thorough tier (its axiom list - that of every loaded library - is copied
-  into the evidence).
+  into the evidence). At the end of the build `coqchk` was run once more on all 20 property files: exit status 0 for each, "relying on
+  type-in-type: <none>, unsafe (co)fixpoints: <none>, positivity assumed: <none>".
 * Axioms: none are declared by this development. Property files C01-C06, C08-C12, C14-C19 are closed under the global context.
   C07, C13 (the five `phi_*` theorems) and C20 (`C20_ln_data_certified`) rest on the standard-library / CoqInterval axioms
   `ClassicalDedekindReals.sig_forall_dec`, `ClassicalDedekindReals.sig_not_dec`, `FunctionalExtensionality.functional_extensionality_dep`,
